@@ -570,10 +570,14 @@ theorem undoBlock_todoBlock (e : Env) (s s' : St) (lh : Int) (b : Block) (h : to
       simp only [Option.some.injEq] at h
       subst h
       have hx : TRefines { s2 with pointer := b.id, irrev := nextIrrev e.window s.irrev b.height } s2 :=
-        ⟨⟨fun _ => rfl, fun _ => rfl, rfl, rfl⟩, fun _ => rfl, fun _ _ hm => hm⟩
+        ⟨⟨fun _ => rfl, fun _ => rfl, rfl⟩, fun _ => rfl, fun _ _ hm => hm⟩
       have hT := undoTxs_applyBlockTxs e lh b.prop b.txs s s2 hfwd hwf hnd hfresh hfz hinv _ hx
+      have hpool : (undoTxs e b.txs
+          { s2 with pointer := b.id, irrev := nextIrrev e.window s.irrev b.height }).pool = s.pool := by
+        rw [(undoTxs_frame e b.txs _).2.2, applyBlockTxs_ok_eq e lh b.prop b.txs s s2 hfwd]
+        exact (replayTxs_frame e b.prop b.txs s).2.2
       rw [undoBlock_eq]
-      exact ⟨⟨hT.obs.U, hT.obs.ver, hT.obs.total, rfl, rfl, hT.obs.pool⟩, hT.ZU, hT.ZD⟩
+      exact ⟨⟨hT.obs.U, hT.obs.ver, hT.obs.total, rfl, rfl, hpool⟩, hT.ZU, hT.ZD⟩
     · cases h
 
 /-- the observational form: same rows, key versions, total and pool as before the block; pointer at the parent -/
